@@ -86,6 +86,34 @@ theorem displaced_gets_nothing (b : B) (st : Step) (o : Out) (ho : o ∈ (stepB 
     (b.cli? o.conn).isSome = true ∨ (∃ r, st = .connect r ∧ o.conn = r.conn) :=
   step_writes_online b st o ho
 
+/-! ### non-vacuity -/
+
+/-- a v4 client "c" connected with clean = false on "a", subscribed, published QoS 1 to itself, then its socket closed -/
+def exOnline : B :=
+  ((({ } : B).connect { conn := "a", cid := "c", clean := false }).subscribe "a" 1 [{ name := "t", qos := 1 }] 0).publish
+    { conn := "a", topic := "t", qos := 1, pid := 7, tag := "m", plen := 1 }
+def exStored : B := exOnline.closeIn "a"
+def exResume : ConnectReq := { conn := "b", cid := "c", clean := false }
+
+/-- the hypotheses of `resume_keeps_state` (and the right-hand side of `session_present_iff`) are satisfiable, with a
+    non-empty queue and a subscription -/
+example : exStored.cli? exResume.conn = none ∧
+    ((afterDisplace exStored exResume.cid).sess? exResume.cid).isSome = true ∧ exResume.clean = false ∧
+    deadlinePassed (afterDisplace exStored exResume.cid) exResume.cid = false ∧
+    ((afterDisplace exStored exResume.cid).sess? exResume.cid).any (fun s => s.queue.items.length == 1) = true ∧
+    (afterDisplace exStored exResume.cid).subs.length = 1 := by decide
+
+/-- the hypotheses of `fresh_session_empty` are satisfiable in a state that has a stored session with subscriptions -/
+example : exStored.cli? "b" = none ∧ (∀ cs ∈ exStored.subs, (exStored.sess? cs.1).isSome = true) ∧
+    ¬ ((false : Bool) = false ∧ ((afterDisplace exStored "c").sess? "c").isSome = true ∧
+       deadlinePassed ((afterDisplace exStored "c").sleep 7200001) "c" = false) := by decide
+
+/-- the hypotheses of `disconnect_sets_deadline` are satisfiable -/
+example : ∃ c s, exOnline.cli? "a" = some c ∧ exOnline.sess? c.cid = some s := ⟨_, _, rfl, rfl⟩
+
+/-- a take-over writes to the displaced connection and to the new one (`displaced_gets_nothing` is not vacuous) -/
+example : (((stepB exOnline (.connect exResume)).out.drop exOnline.out.length).map (·.conn)) = ["a", "b"] := by decide
+
 end GmqttVerif.Broker
 
 namespace GmqttVerif.Takeover
@@ -113,5 +141,9 @@ theorem register_only_when_free (n : Nat) (s t : State n) (h : Reachable false s
 theorem takeover_as_is_broken :
     ∃ s : State 3, Reachable true s ∧ s.pc 1 = .registered ∧ s.pc 2 = .registered :=
   as_is_two_registered
+
+/-- the repaired protocol can register a process (the invariant of `takeover_exclusive` is not vacuous) -/
+example : ∃ s : State 2, Reachable false s ∧ attached s 0 :=
+  ⟨_, .step _ _ (.step _ _ .init (.checkNoSession (init 2) 0 rfl rfl rfl)) (.register _ 0 rfl rfl), .inl rfl⟩
 
 end GmqttVerif.Takeover
